@@ -149,6 +149,19 @@ CHECKS = {
              'the configuration that agrees with the explicit arguments (~250,000 evaluations); messages built under one '
              'configuration are re-observed after switching to others.',
         note='trusted: differential oracle only (no reference values); calls on parentless elements without an encoding-chars argument are outside the statement'),
+    'C18': dict(
+        engine=E1, design_ref='DESIGN.md section 7 C18',
+        technique='exhaustive enumeration of synthesised message profiles (identity + one edit per child site: max->1, min->1, removed '
+                  'child; per leaf field: datatype swap) x creation paths on the real API; differential oracle against the no-profile run',
+        text='All structures of 2.5 and every third structure of the other versions (thorough: all): the identity profile must leave '
+             'building through the API, parsing and validation identical to the no-profile run; each single edit at each child of the '
+             'message and of its groups (~13,800 edited profiles in quick) must show in validate() of the profile run only (error '
+             'naming the child) and in STRICT construction (the forbidden child is refused). For every segment of 2.5 (thorough: all '
+             'versions) each ST/NM/ID/IS/SI leaf field gets its datatype swapped in the profile; the child created by traversal '
+             'read, traversal write, add_* helpers, parse_message(message_profile=) and text assignment must carry the profile '
+             'datatype, and a STRICT parse must refuse a value only valid for the standard datatype. Shipped ITI-21 profile, a '
+             'profile lacking the structure (MessageProfileNotFound) and the legacy files (LegacyMessageProfile) are checked.',
+        note='trusted: profile synthesiser (same tuple shape as the shipped profile); children listed twice in a structure (D12) are blocked'),
     'C19': dict(
         engine=E3, design_ref='DESIGN.md section 7 C19, section 3.3',
         technique='stateless model checking of the implementation: real threads under a baton scheduler with a choice point '
